@@ -10,6 +10,7 @@ CONSTANTS
   NWorkers = 1
   MaxIters = 2
   WalOn = TRUE
+  FailKinds = {"error"}
   MaxDown = 1
   MaxRot = 2
   MaxTick = 2
